@@ -40,10 +40,10 @@ func init() {
 			}
 			return 14400
 		},
-		Rule:         "cases rotate over four monitors on the in-memory, file and S3 backends: (1) sequential contract: generated (name, bytes) with names from the 43-character base64url alphabet (and short ones), payloads empty / 1 byte / all 256 byte values / random up to 300 KB (quick) or 6 MB (thorough): Load before any Store must fail, Store must succeed, Load must return exactly the bytes, a second Store must leave them loadable; (2) error propagation: file backend rooted at a regular file / a missing directory / an unwritable file, S3 client failing Put, Get or the body Read: the error must reach the caller; (3) S3 object mapping: a recording S3Interface fake checks Bucket == BucketName, Key == Prefix+name and body == bytes for prefixes '', 'node/', 'a/b/', plus the real SDK path against gofakes3 on loopback; (4) concurrency (-race build): 3-8 clients issue Store/Load on 1-3 names, every call recorded at the client boundary with call/return stamps of the logical clock and checked per name with porcupine against the model absent | present(bytes); non-trivial = a sequential case with a non-empty payload, or a history with >= 2 overlapping operations on one name; distinct by (monitor, backend, name, payload class / history)",
-		Assumptions:  []string{"buffers handed to Store or returned by Load are never mutated by the harness (copy semantics are not part of the statement)", "a porcupine timeout is inconclusive, never a violation"},
-		MinObs:       map[string]int64{"sequential_cases": 300, "error_cases": 100, "s3_requests_checked": 300, "histories_checked": 100, "history_ops": 3000},
-		Run:          runC18,
+		Rule:        "cases rotate over four monitors on the in-memory, file and S3 backends: (1) sequential contract: generated (name, bytes) with names from the 43-character base64url alphabet (and short ones), payloads empty / 1 byte / all 256 byte values / random up to 300 KB (quick) or 6 MB (thorough): Load before any Store must fail, Store must succeed, Load must return exactly the bytes, a second Store must leave them loadable; (2) error propagation: file backend rooted at a regular file / a missing directory / an unwritable file, S3 client failing Put, Get or the body Read: the error must reach the caller; (3) S3 object mapping: a recording S3Interface fake checks Bucket == BucketName, Key == Prefix+name and body == bytes for prefixes '', 'node/', 'a/b/', plus the real SDK path against gofakes3 on loopback; (4) concurrency (-race build): 3-8 clients issue Store/Load on 1-3 names, every call recorded at the client boundary with call/return stamps of the logical clock and checked per name with porcupine against the model absent | present(bytes); non-trivial = a sequential case with a non-empty payload, or a history with >= 2 overlapping operations on one name; distinct by (monitor, backend, name, payload class / history)",
+		Assumptions: []string{"buffers handed to Store or returned by Load are never mutated by the harness (copy semantics are not part of the statement)", "a porcupine timeout is inconclusive, never a violation"},
+		MinObs:      map[string]int64{"sequential_cases": 300, "error_cases": 100, "s3_requests_checked": 300, "histories_checked": 100, "history_ops": 3000},
+		Run:         runC18,
 	})
 }
 
